@@ -130,8 +130,11 @@ def packet_events(rep, thorough):
         msg = SshDHKeyExchangeInit(bytearray(n - 5))
         rec = bytes(SshRecordKexDH(msg).compose())
         payload = bytes(msg.compose())
+        # ... and read back: RFC 4253 6.1 obliges an implementation to process packets of up to 35000 bytes
+        o2, back, _ = call(SshRecordKexDH.parse_exact_size, rec)
+        back_ok = o2 == 'ok' and bytes(back.compose()) == rec
         ev.append({'ev': 'packet', 'n': len(payload), 'packet_length': int.from_bytes(rec[:4], 'big'), 'padding_length': rec[4],
-                   'total': len(rec), 'head_ok': rec[5:5 + len(payload)] == payload})
+                   'total': len(rec), 'head_ok': rec[5:5 + len(payload)] == payload and (back_ok or len(rec) > 35000)})
         rep.case('packet|%d' % n)
     for msg in (SshNewKeys(),):
         rec = bytes(SshRecordInit(msg).compose())
